@@ -31,7 +31,9 @@ REACH_MIN = {"stop_points": {"quick": 500, "thorough": 15000},
              "sit_resolving": {"quick": 30, "thorough": 900},
              "stop_from_processor": {"quick": 10, "thorough": 300},
              "shutdowns": {"quick": 150, "thorough": 4500},
-             "restarts_checked": {"quick": 300, "thorough": 9000}}
+             "restarts_checked": {"quick": 300, "thorough": 9000},
+             "shutdown_then_stop": {"quick": 100, "thorough": 3000},
+             "shutdown_commit_refused": {"quick": 100, "thorough": 3000}}
 
 FETCHISH = ("Fetch", "ListOffsets", "OffsetFetch", "OffsetCommit")
 
@@ -66,7 +68,7 @@ def situation(c):
     return out or ["idle_running"]
 
 
-def run_once(sc, stop_at=None, how="stop", restart_after=1.0, stop_in_errback=False):
+def run_once(sc, stop_at=None, how="stop", restart_after=1.0, stop_in_errback=False, then_stop=None, commit_fail=None):
     info = dict(step0=None, survey={}, stop_sit=None, done=False)
 
     def built(tr):
@@ -84,10 +86,19 @@ def run_once(sc, stop_at=None, how="stop", restart_after=1.0, stop_in_errback=Fa
             info["stop_sit"] = situation(c)
             if c._start_d is None:
                 return
+            if commit_fail is not None:
+                # from now on the coordinator refuses every commit
+                tr.cluster.faults.rules.insert(0, dict(api="OffsetCommit", _seen=0, until=tr.w.clock.seconds() + 60.0,
+                                                       action=dict(kind="error", code=commit_fail)))
             if how == "stop":
                 tr.do["stop"]("outside")
             else:
                 tr.do["shutdown"]("outside")
+                if then_stop is not None:
+                    def stop_too():
+                        if tr.consumer._start_d is not None:
+                            tr.do["stop"]("after_shutdown")
+                    tr.w.clock.labelled(then_stop, "call.stop_after_shutdown", cons.guard(stop_too, tr))
             tr.w.clock.labelled(restart_after, "call.restart", cons.guard(lambda: tr.do["restart"]("next"), tr))
 
     def on_start_fired(tr, st, r):
@@ -326,6 +337,29 @@ def run(spec):
                                                        situation=tr.info["stop_sit"]))
         sits.append((k, how, tr.info["stop_sit"]))
         res.sigs.add(sig(spec["seed"], k, how, tuple(tr.info["stop_sit"] or ()), tuple(tr.w.clock.trace[:2500])))
+    # shutdown() pre-empted by stop(), and shutdown() whose commit the coordinator refuses, at the points where a
+    # shutdown has something to wait for
+    extra = [(k, name) for k, name in sorted(points.items()) if name in ("processor_pending", "commit_in_flight",
+                                                                         "reply_parked", "fetch_outstanding")][:3]
+    for k, name in extra:
+        ts = rng.choice((0.0, 0.001, 0.05, 0.3))
+        ra = rng.choice((0.5, 2.0))
+        tr = run_once(sc, stop_at=k, how="shutdown", restart_after=max(ra, ts + 0.2), then_stop=ts)
+        tr.info["restart_after"] = ra
+        res.hit("shutdown_then_stop")
+        check(res, tr, "shutdown_then_stop")
+        for v in res.violations:
+            v["witness"].setdefault("stop_point", dict(k=k, how="shutdown_then_stop", after=ts, situation=tr.info["stop_sit"]))
+        sits.append((k, "shutdown_then_stop", tr.info["stop_sit"]))
+        code = rng.choice((7, 12, 22, 2))
+        tr = run_once(sc, stop_at=k, how="shutdown", restart_after=rng.choice((3.0, 5.0)), commit_fail=code)
+        tr.info["restart_after"] = 3.0
+        res.hit("shutdown_commit_refused")
+        check(res, tr, "shutdown_commit_refused")
+        for v in res.violations:
+            v["witness"].setdefault("stop_point", dict(k=k, how="shutdown_commit_refused", code=code,
+                                                       situation=tr.info["stop_sit"]))
+        sits.append((k, "shutdown_commit_refused", tr.info["stop_sit"]))
     if any(p[0] in ("fail_sync", "fail_async") for p in sc["procs"]):
         tr = run_once(sc, stop_in_errback=True)
         check(res, tr, "stop_in_errback")
